@@ -84,6 +84,7 @@ Definition w_zrle_cp24 : list tok :=
   [TZ 5 true true ([128] ++ concat (repeat [17; 34; 51; 0] 63) ++ [17; 34; 51] ++ repeat 255 129 ++ [0] ++ [0; 68; 85; 102])].
 Definition state127 (f : pixfmt) (g w h : Z) : cst := set_fix (init_state f g w h) 127.   (* before d211e4c / 281f33a *)
 Definition state511 (f : pixfmt) (g w h : Z) : cst := set_fix (init_state f g w h) 511.   (* before a41e88e *)
+Definition state1023 (f : pixfmt) (g w h : Z) : cst := set_fix (init_state f g w h) 1023.   (* before a24a50e / 9fe693e *)
 Lemma w_zrle_cp24_oob : handle_msg (state127 f888 255 65 1) w_zrle_cp24 = Oob 36.
 Proof. vm_compute. reflexivity. Qed.
 Lemma w_zrle_cp24_fixed :
@@ -103,10 +104,10 @@ Proof. vm_compute. exact I. Qed.
 
 (* F31 (known_findings.d/C08.json): the Tight gradient filter stores the first pixel of every row even for a rectangle
    of width 0; at x = width the last store is one pixel past the framebuffer (reproduced under ASan:
-   corpus/C08/w_tightgrad_w0.script).  Present on the baseline; gone with fix 10 (notes/fix_C08_11.diff). *)
+   corpus/C08/w_tightgrad_w0.script).  Present before a24a50e (state1023); gone with fix 10 = the baseline. *)
 Definition w_tightgrad_w0 : list tok := fbu1 8 0 0 4 cE_Tight ++ toks [64; 2].
-Lemma w_tightgrad_w0_oob : handle_msg (init_state f888 255 8 4) w_tightgrad_w0 = Oob 79.
+Lemma w_tightgrad_w0_oob : handle_msg (state1023 f888 255 8 4) w_tightgrad_w0 = Oob 79.
 Proof. vm_compute. reflexivity. Qed.
 Lemma w_tightgrad_w0_fixed :
-  match handle_msg (set_fix (init_state f888 255 8 4) 2047) w_tightgrad_w0 with Oob _ => False | _ => True end.
+  match handle_msg (init_state f888 255 8 4) w_tightgrad_w0 with Oob _ => False | _ => True end.
 Proof. vm_compute. exact I. Qed.
